@@ -28,6 +28,9 @@ denominator D and the sums are evaluated in Python integers; the results are Fra
     ex.mag_*                                         float upper bounds of sum|terms| of a float64
                                                      surface-integral evaluation (for tolerances)
     ex.tol_*(k=64)                                   absolute float tolerances derived from them
+    ex.local(ref)                                    the same solid in coordinates relative to ref:
+                                                     exact moments about ref, mag_* / tol_* of an
+                                                     evaluation on fl(V - ref)
 
 Magnitude bounds.  A float64 evaluation from vertex coordinates forms, per face, products of a
 cross-product component N_i = (e1 x e2)_i with a polynomial of degree 1..3 in the coordinates.
@@ -116,7 +119,29 @@ class ExactMass:
             for j in range(i, 3):
                 self.second[i][j] = self.second[j][i] = Fraction(s120[i][j], 120 * D**5)
         self.area = float(_CTX.divide(area_dec, decimal.Decimal(2 * D * D)))
+        self._VF = (V, F)
         self._magnitudes(V, F)
+
+    def local(self, ref):
+        """
+        The same solid seen from the point `ref` (floats): exact volume / first / second moments
+        shifted exactly, and the magnitude bounds (hence tol_*) of a float64 surface-integral
+        evaluation carried out on the coordinates fl(V - ref) instead of V, i.e. of a
+        translation-invariant evaluation.  Positions handed to tol_inertia / tol_center_mass of
+        the view are relative to `ref`.
+        """
+        ref = [float(x) for x in ref]
+        o = object.__new__(ExactMass)
+        o.n_faces, o.denominator = self.n_faces, self.denominator
+        o.volume = self.volume
+        o.first = [self.first[i] - self.volume * _frac(ref[i]) for i in range(3)]
+        o.second = self.second_about(ref)
+        o.area = self.area
+        V, F = self._VF
+        Vl = np.asarray(V, dtype=np.float64) - np.asarray(ref, dtype=np.float64)
+        o._VF = (Vl, F)
+        o._magnitudes(Vl, F)
+        return o
 
     # ------------------------------------------------------------------ magnitudes
     def _magnitudes(self, V, F):
